@@ -7,6 +7,9 @@ from ..effects import Effects
 from ..manager_rules import check_conversion_typestate, check_ha
 
 
+from ..framework_rules import check_tag_owners
+
+
 @register("C11")
 def run(repo, tier) -> Result:
     res = Result("C11", tier)
@@ -38,4 +41,6 @@ def run(repo, tier) -> Result:
         else:
             res.ok("R-STATE", {"function": f"{cls}.{nm}", "why": "no write to self: the shared converter is stateless"}, nontrivial=f"{cls}.{nm}")
     res.rule("R-VN-HA", floor=8)
+    # "each candle is converted exactly once": the tag that marks a converted candle is cleared only where the candle is rebuilt
+    check_tag_owners("C11", res, repo)
     return res
